@@ -217,14 +217,21 @@ func (x *Exec) appendOp(st *State, c *ssa.Call) SV {
 		x.fail("append operands")
 	}
 	et := elemTypeOf(c.Type())
-	// element type of t may be string (append([]byte, string...))
 	tet := elemTypeOf(c.Call.Args[1].Type())
+	srcBase := elemKeyBase(tet)
+	if isStringType(c.Call.Args[1].Type()) {
+		srcBase = "S:byte"
+	}
+	return x.appendCore(st, s, t, et, srcBase, c.Type())
+}
+
+// appendCore models append(s, t...): in place when the capacity suffices,
+// otherwise a fresh backing store with the old contents copied.
+func (x *Exec) appendCore(st *State, s, t SV, et types.Type, srcBase string, resTy types.Type) SV {
 	newLen := Add(s.Len, t.Len)
 	// allocation succeeds and the total stays below maxAlloc (standing assumption, listed in the evidence)
 	st.assume(Le(newLen, MaxLenTerm))
 	leaves := leavesOf(et)
-	// Model both cases in one state with an ite on the result header; element
-	// heaps get a fresh array for the result's backing store in either case.
 	inPlace := Le(newLen, s.Cap)
 	rid := Var(x.freshName("app#id"), SInt)
 	rcap := Var(x.freshName("app#cap"), SInt)
@@ -232,31 +239,23 @@ func (x *Exec) appendOp(st *State, c *ssa.Call) SV {
 	newID := x.allocRef(st)
 	st.assume(Ite(inPlace, And(Eq(rid, s.Id), Eq(rcap, s.Cap), Eq(roff, s.Off)),
 		And(Eq(rid, newID), Ge(rcap, newLen), Le(rcap, MaxLenTerm), Eq(roff, IntC(0)))))
-	// appending nothing to nil gives nil
-	res := SV{K: KSeq, Ty: c.Type(), Id: rid, Off: roff, Len: newLen, Cap: rcap}
-	srcBase := elemKeyBase(tet)
-	if b, ok := c.Call.Args[1].Type().Underlying().(*types.Basic); ok && b.Info()&types.IsString != 0 {
-		srcBase = "S:byte"
-	}
+	res := SV{K: KSeq, Ty: resTy, Id: rid, Off: roff, Len: newLen, Cap: rcap}
 	for _, lf := range leaves {
 		k := elemKeyBase(et) + lf.suffix
 		srt := arrayOf(arrayOf(lf.sort))
 		x.registerKey(k, srt)
 		h := x.heapGet(st.heap, k, srt)
-		sk := srcBase + lf.suffix
-		x.registerKey(sk, srt)
-		sh := x.heapGet(st.heap, sk, srt)
 		var tarr *Term
 		if t.Arr != nil && lf.suffix == "" {
 			tarr = t.Arr
 		} else {
-			tarr = Select(sh, t.Id)
+			sk := srcBase + lf.suffix
+			x.registerKey(sk, srt)
+			tarr = Select(x.heapGet(st.heap, sk, srt), t.Id)
 		}
 		oldArr := Select(h, s.Id)
 		na := Var(x.freshName("apparr"), arrayOf(lf.sort))
 		j := Var(x.freshName("j!app"), SInt)
-		// positions of the result: [roff, roff+s.Len) old elements, [roff+s.Len, roff+newLen) new elements,
-		// everything else of the array unchanged (in place) / unspecified (fresh)
 		st.assume(Forall([]*Term{j}, Implies(And(Le(IntC(0), j), Lt(j, s.Len)),
 			Eq(Select(na, Add(roff, j)), Select(oldArr, Add(s.Off, j))))))
 		j2 := Var(x.freshName("j!app"), SInt)
